@@ -154,7 +154,7 @@ def correctable(item):
         raised = ''
         c = np.zeros(2 * n, dtype=np.uint8)
         try:
-            with common.time_limit(30):
+            with common.time_limit(10):
                 c = np.asarray(dec.decode(s)).ravel() % 2
         except Exception as ex:
             raised = f'{type(ex).__name__}: {ex}'[:80]
